@@ -663,20 +663,45 @@ def _check(ctx):
         posv = src(sp[1]) if sp and sp[1] is not None else None
         ok = bool(sp) and src(sp[0]) == bparam and posv is not None and sp[2] is not None and posv in src(sp[2])
         ctx.check(ok, "write/chunk-from-position", ctx.construct(q, scall), "the chunk handed to OpenSSL does not start at the position reached so far")
-        adv = [x.id for x in g.nodes if x.kind == "stmt" and g.reachable(x.id) and isinstance(x.ast, ast.AugAssign) and posv and src(x.ast.target) == posv]
-        ctx.check(len(adv) == 1 and isinstance(g.node(adv[0]).ast.op, ast.Add) and src(g.node(adv[0]).ast.value) == sentv and g.must_precede([sn], adv) is None,
-                  "write/advance-by-accepted", q + " | <position>", "the position does not advance by exactly what send() accepted (bytes skipped or sent twice)")
-        fsb = call_nodes(g, "self._flushSendBIO")
-        w = g.must_pass(succ_of(g, sn, None), fsb, to=[sn, g.exit]) if succ_of(g, sn, None) else None
-        ctx.check(bool(fsb) and w is None, "write/ciphertext-flushed", q + " | <after send>", "encrypted bytes are left in the send BIO after a successful send()",
-                  witness=g.describe(w))
+        # followed from a successful send() round to the next one with concrete numbers (position 10, 3 bytes accepted, 100 to send): however the new
+        # position is computed - in place, through a local, as the value a helper hands back - the next chunk must start at 13
+        ok_send = succ_of(g, sn, None)
+        trial = {posv: 10, sentv: 3, f"len({bparam})": 100} if posv and sentv else None
+        if trial is not None:
+            # locals bound once to a constant before the loop (the record size) are part of the state the round starts in
+            from sa.props._lib_d import _local_bindings
+            binds = _local_bindings(f)
+            for st_ in walk_local(f):
+                if isinstance(st_, ast.Assign) and len(st_.targets) == 1 and isinstance(st_.targets[0], ast.Name) and len(binds.get(st_.targets[0].id, [])) == 1 \
+                        and st_.targets[0].id not in trial:
+                    try:
+                        v_ = peval(st_.value, {})
+                    except NotConst:
+                        continue
+                    if isinstance(v_, int) and not isinstance(v_, bool):
+                        trial[st_.targets[0].id] = v_
+        if trial is None or not ok_send:
+            ctx.note("write/advance-by-accepted, write/ciphertext-flushed: position / accepted-count variables of the send loop not recognised; not decided")
+        else:
+            arrivals = facts_at(g, trial, [sn], srcs=ok_send)
+            got = sorted({fa.get(posv, "?") for fa in arrivals}, key=repr)
+            if "?" in got:
+                ctx.note(f"write/advance-by-accepted: the position {posv} at the next send() could not be evaluated; not decided")
+            else:
+                ctx.check(got == [13], "write/advance-by-accepted", q + " | <position>",
+                          "the position does not advance by exactly what send() accepted (bytes skipped or sent twice): after position 10 and 3 accepted bytes the "
+                          f"next chunk starts at {got if got else 'nothing (send() is not tried again)'}")
+            fsb = call_nodes(g, "self._flushSendBIO")
+            w = must_pass_under(g, trial, fsb, srcs=ok_send, to=[sn, g.exit])
+            ctx.check(bool(fsb) and w is None, "write/ciphertext-flushed", q + " | <after send>", "encrypted bytes are left in the send BIO after a successful send()",
+                      witness=g.describe(w))
         role = {h_: ss_ for h_, ss_ in _rebuffer_sites(ctx)[3]}
         for h in succ_of(g, sn, "exc"):
             if g.node(h).kind != "handler":
                 continue
             names = handler_names(g.node(h).ast)
             hc = ctx.construct(q, f"except {', '.join(names)}:")
-            back = g.path([h], [sn], strict=True, edge_ok=_nx)
+            back = path_under(g, {}, [sn], srcs=[h])       # branch outcomes fixed by what the handler itself assigns (a result of None, a flag) are respected
             ctx.check(back is None, "write/handler-leaves-loop", hc, "after a failed send() the loop tries again with the same data", witness=g.describe(back))
             if "WantReadError" in names:
                 mine = role.get(h, [])
@@ -977,6 +1002,9 @@ def _check(ctx):
 
 _UB = ("        pendingWrites, self._appSendBuffer = self._appSendBuffer, []\n        for eachWrite in pendingWrites:\n            self._write(eachWrite)\n")
 MUTANTS = [
+    Mutant("write-helper-returns-position-advanced-by-the-chunk-size", T, "            toSend = bytes[alreadySent : alreadySent + bufferSize]\n            try:\n                sent = self._tlsConnection.send(toSend)\n            except WantReadError:\n                self._bufferedWrite(bytes[alreadySent:])\n                break\n            except Error:\n                # Pretend TLS connection disconnected, which will trigger\n                # disconnect of underlying transport. The error will be passed\n                # to the application protocol's connectionLost method.  The\n                # other SSL implementation doesn't, but losing helpful\n                # debugging information is a bad idea.\n                self._tlsShutdownFinished(Failure())\n                break\n            else:\n                # We've successfully handed off the bytes to the OpenSSL\n                # Connection object.\n                alreadySent += sent\n                # See if OpenSSL wants to hand any bytes off to the underlying\n                # transport as a result.\n                self._flushSendBIO()\n\n", '            reached = self._handOver(bytes, alreadySent, bufferSize)\n            if reached is None:\n                break\n            alreadySent = reached\n            self._flushSendBIO()\n\n    def _handOver(self, octets, start, limit):\n        piece = octets[start : start + limit]\n        try:\n            accepted = self._tlsConnection.send(piece)\n        except WantReadError:\n            self._bufferedWrite(octets[start:])\n            return None\n        except Error:\n            self._tlsShutdownFinished(Failure())\n            return None\n        return start + limit\n\n', expect_rule="write/advance-by-accepted"),
+    Mutant("write-helper-shape-forgets-to-flush-ciphertext", T, "            toSend = bytes[alreadySent : alreadySent + bufferSize]\n            try:\n                sent = self._tlsConnection.send(toSend)\n            except WantReadError:\n                self._bufferedWrite(bytes[alreadySent:])\n                break\n            except Error:\n                # Pretend TLS connection disconnected, which will trigger\n                # disconnect of underlying transport. The error will be passed\n                # to the application protocol's connectionLost method.  The\n                # other SSL implementation doesn't, but losing helpful\n                # debugging information is a bad idea.\n                self._tlsShutdownFinished(Failure())\n                break\n            else:\n                # We've successfully handed off the bytes to the OpenSSL\n                # Connection object.\n                alreadySent += sent\n                # See if OpenSSL wants to hand any bytes off to the underlying\n                # transport as a result.\n                self._flushSendBIO()\n\n", '            reached = self._handOver(bytes, alreadySent, bufferSize)\n            if reached is None:\n                break\n            alreadySent = reached\n\n    def _handOver(self, octets, start, limit):\n        piece = octets[start : start + limit]\n        try:\n            accepted = self._tlsConnection.send(piece)\n        except WantReadError:\n            self._bufferedWrite(octets[start:])\n            return None\n        except Error:\n            self._tlsShutdownFinished(Failure())\n            return None\n        return start + accepted\n\n', expect_rule="write/ciphertext-flushed"),
+    Mutant("write-helper-wantread-returns-same-position-loop-retries", T, "            toSend = bytes[alreadySent : alreadySent + bufferSize]\n            try:\n                sent = self._tlsConnection.send(toSend)\n            except WantReadError:\n                self._bufferedWrite(bytes[alreadySent:])\n                break\n            except Error:\n                # Pretend TLS connection disconnected, which will trigger\n                # disconnect of underlying transport. The error will be passed\n                # to the application protocol's connectionLost method.  The\n                # other SSL implementation doesn't, but losing helpful\n                # debugging information is a bad idea.\n                self._tlsShutdownFinished(Failure())\n                break\n            else:\n                # We've successfully handed off the bytes to the OpenSSL\n                # Connection object.\n                alreadySent += sent\n                # See if OpenSSL wants to hand any bytes off to the underlying\n                # transport as a result.\n                self._flushSendBIO()\n\n", '            reached = self._handOver(bytes, alreadySent, bufferSize)\n            if reached is None:\n                break\n            alreadySent = reached\n            self._flushSendBIO()\n\n    def _handOver(self, octets, start, limit):\n        piece = octets[start : start + limit]\n        try:\n            accepted = self._tlsConnection.send(piece)\n        except WantReadError:\n            self._bufferedWrite(octets[start:])\n            return start\n        except Error:\n            self._tlsShutdownFinished(Failure())\n            return None\n        return start + accepted\n\n', expect_rule="write/handler-leaves-loop"),
     Mutant("inlined-rebuffering-does-not-pause-the-producer", T, '                self._bufferedWrite(bytes[alreadySent:])\n', '                unsent = bytes[alreadySent:]\n                self._appSendBuffer.append(unsent)\n', more=[(T, '    def _bufferedWrite(self, octets):\n        """\n        Put the given octets into L{TLSMemoryBIOProtocol._appSendBuffer}, and\n        tell any listening producer that it should pause because we are now\n        buffering.\n        """\n        self._appSendBuffer.append(octets)\n        if self._producer is not None:\n            self._producer.pauseProducing()\n\n', "")], expect_rule="backpressure/pause-on-buffering"),
     Mutant("inlined-rebuffering-keeps-the-whole-write", T, '                self._bufferedWrite(bytes[alreadySent:])\n', '                self._appSendBuffer.append(bytes)\n                if self._producer is not None:\n                    self._producer.pauseProducing()\n', more=[(T, '    def _bufferedWrite(self, octets):\n        """\n        Put the given octets into L{TLSMemoryBIOProtocol._appSendBuffer}, and\n        tell any listening producer that it should pause because we are now\n        buffering.\n        """\n        self._appSendBuffer.append(octets)\n        if self._producer is not None:\n            self._producer.pauseProducing()\n\n', "")], expect_rule="write/wantread-rebuffers-unsent-suffix"),
     Mutant("append-to-pending-queue-outside-the-wantread-handler", T, "                self._tlsShutdownFinished(Failure())\n                break\n            else:\n",
@@ -1051,6 +1079,7 @@ MUTANTS = [
            expect_rule="aggregate/sequence-routes-through-aggregator"),
 ]
 SILENT = [
+    Silent("write-record-handed-over-by-a-helper-returning-the-next-position", T, "            toSend = bytes[alreadySent : alreadySent + bufferSize]\n            try:\n                sent = self._tlsConnection.send(toSend)\n            except WantReadError:\n                self._bufferedWrite(bytes[alreadySent:])\n                break\n            except Error:\n                # Pretend TLS connection disconnected, which will trigger\n                # disconnect of underlying transport. The error will be passed\n                # to the application protocol's connectionLost method.  The\n                # other SSL implementation doesn't, but losing helpful\n                # debugging information is a bad idea.\n                self._tlsShutdownFinished(Failure())\n                break\n            else:\n                # We've successfully handed off the bytes to the OpenSSL\n                # Connection object.\n                alreadySent += sent\n                # See if OpenSSL wants to hand any bytes off to the underlying\n                # transport as a result.\n                self._flushSendBIO()\n\n", '            reached = self._handOver(bytes, alreadySent, bufferSize)\n            if reached is None:\n                break\n            alreadySent = reached\n            self._flushSendBIO()\n\n    def _handOver(self, octets, start, limit):\n        piece = octets[start : start + limit]\n        try:\n            accepted = self._tlsConnection.send(piece)\n        except WantReadError:\n            self._bufferedWrite(octets[start:])\n            return None\n        except Error:\n            self._tlsShutdownFinished(Failure())\n            return None\n        return start + accepted\n\n'),
     Silent("buffered-write-helper-written-out-in-the-wantread-handler", T, '                self._bufferedWrite(bytes[alreadySent:])\n', '                unsent = bytes[alreadySent:]\n                self._appSendBuffer.append(unsent)\n                listening = self._producer\n                if listening is not None:\n                    listening.pauseProducing()\n', more=[(T, '    def _bufferedWrite(self, octets):\n        """\n        Put the given octets into L{TLSMemoryBIOProtocol._appSendBuffer}, and\n        tell any listening producer that it should pause because we are now\n        buffering.\n        """\n        self._appSendBuffer.append(octets)\n        if self._producer is not None:\n            self._producer.pauseProducing()\n\n', "")]),
     Silent("lost-reason-selected-by-if-through-a-local", T, '        reason = self._reason or reason\n        self._reason = None\n',
            "        recorded = self._reason\n        self._reason = None\n        if recorded:\n            reason = recorded\n"),
